@@ -19,7 +19,7 @@ LEVEL_NOTE = ('Partial in one respect: fields/segments with exactly one element 
               'size-1 array as a broadcastable scalar; open known finding KF-C07-one-pixel-segment). Trusted: Lean kernel, py2lean subset '
               'semantics, NumPy slicing/broadcast/exp semantics as modelled, generator coverage of the correspondence.')
 TECHNIQUE = 'Lean 4 proof (omega/induction/ring) over translator-regenerated kernels + hand model with differential correspondence'
-GEN = ['Extent', 'FieldIdx', 'Helper', 'PlanePx']
+GEN = ['Extent', 'FieldIdx', 'Helper', 'PlanePx', 'PlaneHandover']
 OPS = ['C07']
 RULE = ('cases: chains of 1..3 planes (Plane or Pupil) on a fresh wavefront with scalar/array amplitude, OPD and None/scalar/2-D/3-D mask in '
         'every combination (segments 1..5, overlapping bounding boxes, overlapping layers), pixel scales None/equal/different; wavefronts '
@@ -190,19 +190,29 @@ def has_one_element_field(planes):
 
 def gen_chain(rng, mode, kmax=6, nmax=3):
     for _ in range(200):
-        n = int(rng.integers(1, nmax + 1))
-        kind = 'pupil' if rng.integers(0, 2) else 'plane'
+        n = int(rng.integers(1, nmax + 2))
         shape = _shape(rng, kmax)
         planes = []
+        pt = 'none'          # wavefront plane type; the kind of every plane is drawn among those _mul_ptype_table admits
         for i in range(n):
             sh = shape if rng.integers(0, 4) else _shape(rng, kmax)
             force = 'default' if rng.integers(0, 8) == 0 else None
-            planes.append(_plane(rng, mode, sh, kind, force))
+            legal = {'none': ['plane', 'plane', 'pupil', 'pupil', 'image', 'tilt', 'plane_pupil'],
+                     'pupil': ['pupil', 'pupil', 'tilt', 'plane_pupil', 'plane_pupil'], 'image': ['image', 'image', 'tilt']}[pt]
+            kind = legal[int(rng.integers(0, len(legal)))]
+            if kind == 'tilt':
+                pl = _plane(rng, mode, sh, 'tilt', 'default')
+                pl['tilt'] = [float(np.round(rng.normal(0, 1e-3), 6)), float(np.round(rng.normal(0, 1e-3), 6))]
+            else:
+                pl = _plane(rng, mode, sh, kind, force)
+            planes.append(pl)
+            pt = {'plane': pt, 'tilt': pt, 'pupil': 'pupil', 'plane_pupil': 'pupil', 'image': 'image'}[kind]
         if has_one_element_field(planes): continue
         # pixel scales: wavefront and planes None / equal / (rarely) different
         base = [int(rng.integers(1, 4)), int(rng.integers(1, 4))] if rng.integers(0, 3) == 0 else [int(rng.integers(1, 4))] * 2
         wpx = base if rng.integers(0, 3) == 0 else None
         for pl in planes:
+            if pl['kind'] == 'tilt': continue
             r = int(rng.integers(0, 24))
             if r < 12: pl['px'] = list(base)
             elif r == 12: pl['px'] = [base[0], base[1] + 1]
@@ -310,6 +320,9 @@ def build_plane(pl, mode, wl):
     px = None if pl['px'] is None else tuple(float(x) for x in pl['px'])
     if pl['kind'] == 'pupil':
         return lentil.Pupil(amplitude=amp, opd=opd, mask=mask, pixelscale=px, focal_length=pl['fl'])
+    if pl['kind'] == 'tilt': return lentil.Tilt(x=pl['tilt'][0], y=pl['tilt'][1])
+    if pl['kind'] == 'image': return lentil.Image(amplitude=amp, opd=opd, mask=mask, pixelscale=px)
+    if pl['kind'] == 'plane_pupil': return lentil.Plane(amplitude=amp, opd=opd, mask=mask, pixelscale=px, ptype=lentil.pupil)
     return lentil.Plane(amplitude=amp, opd=opd, mask=mask, pixelscale=px)
 
 def _cells(x, mode):
@@ -341,7 +354,7 @@ def wf_out(w, c):
     if 'insert' in c and all(f.data.ndim == 2 for f in w.data):
         out = np_data(c['insert']['out']).real.copy()
         r = w.insert(out, c['insert']['weight'])
-        o['insert'] = arr_out(r, mode)
+        o['insert'] = arr_out(out, mode)          # the caller's array after the call
         o['insert_same_object'] = r is out
     return o
 
@@ -380,7 +393,7 @@ def plane_req(pl, mode):
     L = plane_mask_layers(pl)
     if isinstance(L, int): mask = {'scalar': L}
     else: mask = {'shape': [int(s) for s in L[0].shape], 'layers': [[int(x) for x in lay.ravel()] for lay in L]}
-    r = {'kind': pl['kind'], 'amp': attr_req(pl['amp'], mode), 'opd': attr_req(pl['opd'], mode), 'mask': mask, 'px': pl['px']}
+    r = {'kind': 'pupil' if pl['kind'] == 'pupil' else 'plane', 'amp': attr_req(pl['amp'], mode), 'opd': attr_req(pl['opd'], mode), 'mask': mask, 'px': pl['px']}
     if pl['kind'] == 'pupil': r['fl'] = vlib.fbits(pl['fl'])
     return r
 
@@ -435,15 +448,19 @@ def _nsq(z):
     z = np.asarray(z)
     return z.real ** 2 + z.imag ** 2
 
-def _scale(c):
-    s = 1.0
+def _scale(c, key='field'):
+    """bound on the magnitude of the compared quantity (tolerance = 1e-9*(1 + this)): the field is bounded by the product over the
+    planes of max|amplitude| * number of layers (times the injected data for `views`); intensity by its square; insert adds the
+    target's prior content"""
+    f = 1.0
     for p in c.get('planes', []):
-        if 'v' in p['amp']: s *= max(1.0, max(abs(x) for x in p['amp']['v']))
-        else: s *= max(1.0, abs(p['amp']['scalar']))
-        if p['mask'] and 'layers' in p['mask']: s *= len(p['mask']['layers'])
-    for f in c.get('fields', []): s += sum(abs(x) for x in f['re']) + sum(abs(x) for x in f['im'])
-    if 'insert' in c: s = s * s * max(1.0, abs(c['insert']['weight'])) + max(abs(x) for x in c['insert']['out']['re'])
-    return s * s + 1
+        a = p['amp']
+        f *= max(1.0, max(abs(x) for x in a['v']) if 'v' in a else abs(a['scalar']))
+        if p.get('mask') and 'layers' in p['mask']: f *= len(p['mask']['layers'])
+    if c.get('fields'): f *= sum(max(max(abs(x) for x in g['re']), max(abs(x) for x in g['im'])) for g in c['fields'])
+    if key == 'field': return f
+    if key == 'intensity': return f * f
+    return f * f * abs(c['insert']['weight']) + max(abs(x) for x in c['insert']['out']['re'])
 
 def _field_box(fl):
     es = [ext_of(f['shape'] if len(f['shape']) == 2 else (1, 1), f['off']) for f in fl]
@@ -461,7 +478,6 @@ def compare(c, io, mo):
         want = None if io['px'] is None else [int(x) for x in io['px']]
         return None if m['px'] == want else f"_mul_pixelscale: impl {io['px']} model {m['px']}"
     mode = c['mode']
-    sc = _scale(c)
     if vlib.bitsf(m['wavelength']) != io['wavelength']: return f"wavelength: impl {io['wavelength']} model {vlib.bitsf(m['wavelength'])}"
     if vlib.bitsf(m['focal']) != io['focal']: return f"focal length: impl {io['focal']} model {vlib.bitsf(m['focal'])}"
     if (None if io['px'] is None else [int(x) for x in io['px']]) != m['px']: return f"pixelscale: impl {io['px']} model {m['px']}"
@@ -469,12 +485,12 @@ def compare(c, io, mo):
     box = _field_box(io['data'] + [dict(f, shape=f['shape']) for f in m['data']])
     ci = _canvas(io['data'], box, _np_arr)
     cm = _canvas(m['data'], box, lambda f: _dec_arr(f, mode))
-    if not _close(ci, cm, mode, sc): return f'fields differ on the canvas (max {np.max(np.abs(ci - cm)):.3g})'
+    if not _close(ci, cm, mode, _scale(c, 'field')): return f'fields differ on the canvas (max {np.max(np.abs(ci - cm)):.3g})'
     for key in ('field', 'intensity', 'insert'):
         if key in io:
             if key not in m: return f'model gave no {key}'
             if isinstance(m[key], str): return f'model {key}: {m[key]}'
-            if not _close(_np_arr(io[key]), _dec_arr(m[key], mode), mode, sc):
+            if not _close(_np_arr(io[key]), _dec_arr(m[key], mode), mode, _scale(c, key)):
                 return f'{key} differs (max {np.max(np.abs(_np_arr(io[key]) - _dec_arr(m[key], mode))):.3g})'
     return None
 
@@ -526,7 +542,6 @@ def oracle(c, io):
         want = a if a is not None else b
         return None if io['px'] == (None if want is None else [float(x) for x in want]) else f'_mul_pixelscale({a},{b}) = {io["px"]}'
     mode = c['mode']
-    sc = _scale(c)
     if k == 'chain':
         # pixel scales, in order
         cur = c['wpx']; conflict = False
@@ -554,8 +569,8 @@ def oracle(c, io):
         if allscalar and all(isinstance(plane_mask_layers(p), int) and 'scalar' in p['amp'] and 'scalar' in p['opd'] for p in c['planes']):
             # everything is a constant: the single one-element field carries the constant
             v = _np_arr(dict(io['data'][0], shape=[1, 1])).ravel()[0] if io['data'] else 0
-            if not _close(np.array([v]), np.array([want.ravel()[0]]), mode, sc): return f'constant field {v} != {want.ravel()[0]}'
-        elif not _close(got, want, mode, sc):
+            if not _close(np.array([v]), np.array([want.ravel()[0]]), mode, _scale(c, 'field')): return f'constant field {v} != {want.ravel()[0]}'
+        elif not _close(got, want, mode, _scale(c, 'field')):
             return f'field is not input * amplitude * exp(2 pi i opd/lambda) inside the mask and 0 outside (max error {np.max(np.abs(got - want)):.3g})'
         total = got
     else:
@@ -569,16 +584,17 @@ def oracle(c, io):
         src = io['data']
         F = _canvas(src, tb, _np_arr)
         f = _np_arr(io['field'])
-        if not _close(f, F, mode, sc): return 'Wavefront.field is not the sum of the embedded fields'
+        if not _close(f, F, mode, _scale(c, 'field')): return 'Wavefront.field is not the sum of the embedded fields'
         I = _np_arr(io['intensity'])
-        if not _close(I, _nsq(f), mode, sc): return f'intensity != |field|^2 (max {np.max(np.abs(I - _nsq(f))):.3g})'
+        if not _close(I, _nsq(f), mode, _scale(c, 'intensity')): return f'intensity != |field|^2 (max {np.max(np.abs(I - _nsq(f))):.3g})'
     if 'insert' in io:
         out = np_data(c['insert']['out']).real
         S0, S1 = out.shape
         tb = (-(S0 // 2), -(S0 // 2) + S0 - 1, -(S1 // 2), -(S1 // 2) + S1 - 1)
         F = _canvas(io['data'], tb, _np_arr)
         want = out + c['insert']['weight'] * _nsq(F)
-        if not _close(_np_arr(io['insert']), want, mode, sc): return 'insert(out, weight) did not add weight * |field|^2 and nothing else'
+        if io.get('insert_same_object') is False: return 'Wavefront.insert did not accumulate into (and return) the caller\'s array'
+        if not _close(_np_arr(io['insert']), want, mode, _scale(c, 'insert')): return 'insert(out, weight) did not add weight * |field|^2 and nothing else'
     return None
 
 def shrink(c):
